@@ -176,6 +176,16 @@ def gen(seed, index, tier):
             layers = rng.choice([1, 1, 1, 2, 3])
             style = rng.choice(["min", "all", "lower", "dots", "mixed"])
         rq = {"sel": sel, "proto": p, "layers": layers, "style": style, "shape": shape}
+        if shape["base"] in OPENFAULT_REL and shape["token"] is None and rng.random() < 0.25:
+            rq["openfault"] = [OPENFAULT_REL[shape["base"]], rng.choice(["EACCES", "EIO", "ENXIO"])]
+        if p == "spartan" and rng.random() < 0.15:
+            # Spartan's path is the raw second word of the request line: it need not start with a slash.
+            # Appended to the root's path as it stands it names a prefix-sibling of the root.
+            rq["sel"] = rng.choice(["X/secret.txt", "X/", "X", "URL:x", ".bak/secret.txt", "-old/secret.txt",
+                                    "X/secret.txt.abstract", "%58/secret.txt"])
+            rq["noslash"] = True
+            rq["layers"] = 1
+            rq["shape"] = dict(shape, base="prefix-sibling", token=None, placement="none")
         if proto.PROTOCOLS[p][1] in ("http", "wap") and rng.random() < 0.4:
             # request headers a shortcut in front of the handlers might look at
             rq["hdr"] = rng.randrange(len(HTTP_HEADERS))
@@ -245,6 +255,8 @@ def _build_root(S):
     return root
 
 
+OPENFAULT_REL = {"file": "small.txt", "script": "script.sh", "mbox": "mail.mbox", "pyg": "hello.pyg",
+                 "zip": "arc.zip"}
 HTTP_HEADERS = [
     b"If-Modified-Since: Sat, 01 Jan 2000 00:00:00 GMT\r\n",
     b"If-Modified-Since: Fri, 01 Jan 2038 00:00:00 GMT\r\n",
@@ -283,6 +295,9 @@ def _build_outside(S, variant):
         simfs.write_file(os.path.join(out, "secret.txt"), secret.encode(), sched.EPOCH - 99)
         simfs.write_file(os.path.join(S, "rootX", "secret.txt"), secret.encode(), sched.EPOCH - 99)
         simfs.write_file(os.path.join(S, "rootX", "secret.txt.abstract"), ("abstract " + secret).encode(), sched.EPOCH - 99)
+        for sib in ("root.bak", "root-old"):
+            os.makedirs(os.path.join(S, sib), exist_ok=True)
+            simfs.write_file(os.path.join(S, sib, "secret.txt"), secret.encode(), sched.EPOCH - 99)
         # what root + selector names when the selector does not start with a slash
         simfs.write_file(os.path.join(S, "rootURL:x"), secret.encode(), sched.EPOCH - 99)
         simfs.write_file(os.path.join(S, "rootURL:x.abstract"), ("abstract " + secret).encode(), sched.EPOCH - 99)
@@ -341,6 +356,8 @@ def _wire(rq, S):
     if fam == "gemini":
         return b"gemini://sim.example.org" + (pathb if pathb.startswith(b"/") else b"/" + pathb) + b"\r\n", tls, once
     if fam == "spartan":
+        if rq.get("noslash"):
+            return b"sim.example.org " + pathb + b" 0\r\n", tls, once
         return b"sim.example.org " + (pathb if pathb.startswith(b"/") else b"/" + pathb) + b" 0\r\n", tls, once
     raise ValueError(p)
 
@@ -420,11 +437,26 @@ def _serve_world(sc, S, root, cwd_name, tape, secret="A"):
                 nops = len(run.fs.oplog)
                 del _events[:]
                 _hook_on[0] = True
+                flt = None
+                if rq.get("openfault"):
+                    # a document that can be looked at but not opened (error texts are where paths leak)
+                    # (the seam's root is the scratch base here, so that it sees the outside as well)
+                    flt = simfs.Fault("open", "root/" + rq["openfault"][0], rq["openfault"][1], nth="all", mode="r")
+                    run.fs.faults.append(flt)
                 try:
                     c = run.client(data, tls=tls)
                     run.go()
                 finally:
                     _hook_on[0] = False
+                    if flt is not None:
+                        run.fs.faults.remove(flt)
+                        if flt.fired:
+                            counters["open_fault_fired"] = counters.get("open_fault_fired", 0) + 1
+                if S.encode() in bytes(c.s2c) and S.encode() not in data and "{S}" not in rq["sel"] and \
+                        not rq["shape"]["base"].startswith("cachefile"):
+                    # where the root lives on the machine is outside-the-root information; only a request that
+                    # spelled the path itself may get it echoed back
+                    bad.append((rq, "response", repr(bytes(c.s2c)[:160]), "reveals the absolute path of the root"))
                 resps.append(bytes(c.s2c).replace(S.encode(), b"<S>"))
                 logs.append([l.replace(S, "<S>") for l in run.log[nlog:]])
                 ops = run.fs.oplog[nops:]
